@@ -49,7 +49,7 @@ def C06(ctx):
     ctx.run(cases, nontrivial=miss, runtime=False)
     ctx.rules.append('family X: a needed type missing behind a binding (directly and two levels down), behind a "*" struct field carrying a foreign struct tag, '
                      'in the first / second of two injector files of one package; family B/S near misses (no binding for an interface, *F from a value struct)')
-    ctx.run(ctx.export('FamilyX(p, {"star-foreign-tag-missing", "star-foreign-tag-ok", "two-files-first-missing", "two-files-second-missing", "two-files-ok", "missing-behind-bind", "missing-behind-bind-2", "alias-satisfies", "defined-type-does-not-satisfy", "pointer-does-not-satisfy-value", "value-does-not-satisfy-pointer", "multi-name-var-sets-missing", "missing-under-fieldsof-parent"})'), nontrivial=miss, runtime=False, check=True)
+    ctx.run(ctx.export('FamilyX(p, {"star-foreign-tag-missing", "star-foreign-tag-ok", "two-files-first-missing", "two-files-second-missing", "two-files-ok", "missing-behind-bind", "missing-behind-bind-2", "alias-satisfies", "defined-type-does-not-satisfy", "pointer-does-not-satisfy-value", "value-does-not-satisfy-pointer", "multi-name-var-sets-missing", "missing-under-fieldsof-parent", "same-name-packages-poorer-set"})'), nontrivial=miss, runtime=False, check=True)
     near = [c for c in ctx.export('FamilyB(p)') + ctx.export('FamilyS(p)') if miss(c)]
     ctx.run(near, nontrivial=miss, runtime=False)
     if not ctx.quick:
